@@ -7,6 +7,7 @@ from fractions import Fraction
 import nt
 from chartgen import b_line, chart_text, ge_line, outcome, ts_line
 from common import limbs, load_impl, td_us
+from common import exc_name  # noqa: E402
 
 PS_NUM = 6 * 10**16  # picoseconds per tick = PS_NUM / (milli_bpm * resolution)
 
@@ -84,7 +85,7 @@ def _q(fn, *a, **kw):
     try:
         return "", fn(*a, **kw)
     except Exception as e:  # noqa: BLE001
-        return type(e).__name__, None
+        return exc_name(e), None
 
 
 def observe(case, props, queries=(), lookups=(), direct=()) -> dict:
@@ -108,7 +109,7 @@ def observe(case, props, queries=(), lookups=(), direct=()) -> dict:
     }
     kind, val = outcome(case_text(case))
     if kind == "raise":
-        rec["raised"] = type(val).__name__
+        rec["raised"] = exc_name(val)
         rec["msg"] = str(val)[:200]
         return rec
     chart = val
@@ -122,22 +123,22 @@ def observe(case, props, queries=(), lookups=(), direct=()) -> dict:
         rec["obs"].append(o)
 
     for e in bpm.events:
-        add("bpm", e.tick, e.timestamp, e._proximal_bpm_event_index)
+        add("bpm", e.tick, e.timestamp, getattr(e, "_proximal_bpm_event_index", -1))
     for e in chart.sync_track.time_signature_events:
-        add("ts", e.tick, e.timestamp, e._proximal_bpm_event_index)
+        add("ts", e.tick, e.timestamp, getattr(e, "_proximal_bpm_event_index", -1))
     g = chart.global_events_track
     for k, evs in (("text", g.text_events), ("section", g.section_events), ("lyric", g.lyric_events)):
         for e in evs:
-            add(k, e.tick, e.timestamp, e._proximal_bpm_event_index)
+            add(k, e.tick, e.timestamp, getattr(e, "_proximal_bpm_event_index", -1))
     for _, dd in chart.instrument_tracks.items():
         for _, tr in dd.items():
             for e in tr.note_events:
-                add("note", e.tick, e.timestamp, e._proximal_bpm_event_index)
+                add("note", e.tick, e.timestamp, getattr(e, "_proximal_bpm_event_index", -1))
                 add("note-end", e.end_tick, e.end_timestamp, -1, st=limbs(td_us(e.timestamp)))
             for e in tr.star_power_events:
-                add("sp", e.tick, e.timestamp, e._proximal_bpm_event_index)
+                add("sp", e.tick, e.timestamp, getattr(e, "_proximal_bpm_event_index", -1))
             for e in tr.track_events:
-                add("te", e.tick, e.timestamp, e._proximal_bpm_event_index)
+                add("te", e.tick, e.timestamp, getattr(e, "_proximal_bpm_event_index", -1))
     # (every tick on which something was observed is also queried directly: an event's own time and the query's must agree)
     seen_ticks = sorted({o["t"] for o in rec["obs"] if o["k"] in ("note-end", "sp", "te")} - set(queries))
     for t in list(queries) + (seen_ticks[:40] if queries else []):
